@@ -3,6 +3,7 @@ replay of exported edges through the public block updates and `enroll`, and the 
 NumPy evaluators of the enrolment objective J and of its mode (DESIGN.md Appendix D)."""
 from fractions import Fraction as F
 
+import json
 import numpy as np
 
 from . import mc, tlc
@@ -99,7 +100,7 @@ def _f(q):
     return float(fr(q))
 
 
-def build_machine(em, k, iterations=1):
+def build_machine(em, k, iterations=1, past=0):
     """ISVMachine / JFAMachine of rank 1 on a UBM with one feature per component; parameters and
     statistics set directly from the exported configuration."""
     C = len(k["m"])
@@ -114,6 +115,29 @@ def build_machine(em, k, iterations=1):
         mach = em.ISVMachine(r_U=1, ubm=ubm, enroll_iterations=iterations)
     mach.U = np.array([[_f(q)] for q in k["U"]])
     mach.D = np.array([_f(q) for q in k["D"]])
+    if past:
+        # a machine with a past (round eight): it held OTHER subspaces / a UBM with other variances, enrolled a client
+        # in that state, and is then brought into the scenario's state -- past 1: in place through the documented
+        # U / V / D arrays and by assigning the variances of the SAME UBM object; past 2: by assigning new arrays
+        U0, D0, s0 = np.array(mach.U), np.array(mach.D), np.array(ubm.variances)
+        V0 = np.array(mach.V) if k["jfa"] else None
+        mach.U, mach.D = U0 * 2.0 + 0.5, D0 * 0.5 + 0.25
+        if k["jfa"]:
+            mach.V = V0 * 0.5 - 0.75
+        ubm.variances = s0 * 2.0 + 0.5
+        warm = em.GMMStats(C, 1)
+        warm.n, warm.sum_px, warm.sum_pxx, warm.t = np.full(C, 1.5), np.full((C, 1), 0.75), np.ones((C, 1)), 3
+        mach.enroll([warm, warm])
+        ubm.variances = s0
+        if past == 1:
+            mach.U[...] = U0
+            mach.D[...] = D0
+            if k["jfa"]:
+                mach.V[...] = V0
+        else:
+            mach.U, mach.D = U0.copy(), D0.copy()
+            if k["jfa"]:
+                mach.V = V0.copy()
     stats = []
     for Nh, Fh in zip(k["N"], k["F"]):
         st = em.GMMStats(C, 1)
@@ -146,7 +170,9 @@ def call_step(em, rec):
     """Perform the exported action on the real objects, with the model's current latent state, the
     way `enroll` calls the block updates.  Returns the projected post-state {y, x, z}."""
     k, act, pre = rec["cfg"], rec["act"], rec["pre"]
-    mach, X = build_machine(em, k)
+    import zlib
+    past = zlib.crc32(json.dumps([k, act], sort_keys=True, default=str).encode()) % 3 if act == "EnrollIter" else 0
+    mach, X = build_machine(em, k, past=past)
     H = len(X)
     labels = list(np.zeros(H, dtype=np.int32))
     ly = np.array([[_f(pre["y"])]]) if k["jfa"] else None
